@@ -8,6 +8,7 @@ from ..absint import Interp, Hooks, State, K, Sym, Obj, Exc, NONE
 from ..report import Check
 from .. import util
 from .common import ForkHooks, labels_of, check_record
+from .common import check_zero_is_a_value
 from .C03 import process_start_sites, ALLOWED_PROCESS_START
 
 PE = 'exactly_lib.util.process_execution.process_executor'
@@ -37,6 +38,15 @@ def check(c: Check):
     clause_e(c)
     clause_f(c)
     clause_g(c)
+    # h: a timeout of 0 seconds is a timeout, not "no timeout"
+    check_zero_is_a_value(c, 'C19-h', ['exactly_lib.util.process_execution.execution_elements',
+                                       'exactly_lib.util.process_execution.process_executor',
+                                       'exactly_lib.test_case.phases.instruction_settings',
+                                       'exactly_lib.execution.configuration',
+                                       'exactly_lib.execution.partial_execution.impl.executor',
+                                       'exactly_lib.impls.instructions.multi_phase.timeout.impl',
+                                       'exactly_lib.definitions.os_proc_env'], 6,
+                          '`timeout = 0` is a timeout of zero seconds, None is "no timeout"')
 
 
 def timeout_origin_ok(ix: Index, m, f, node) -> bool:
